@@ -2,7 +2,7 @@
 sampling specification)."""
 def _mc(name, tier, timeout):
     return dict(tla="Sampling_MC.tla", cfg="Sampling_MC_%s.cfg" % name, tier=tier, timeout=timeout,
-                workers=8 if tier == "quick" else "auto")
+                workers=8)
 
 PROPS = {
     "C09": dict(
